@@ -42,6 +42,30 @@ def tree_scan_atomic():
     return bool(m) and "popInFlightMessage" not in m.group(1) and '"delete"' in m.group(1)
 
 
+def gen_fact(name):
+    """a `List String` fact of Gen/Life.lean (the Lean side proves which shapes are acceptable)"""
+    try:
+        txt = open(os.path.join(framework.LEAN, "Nsq", "Gen", "Life.lean")).read()
+    except OSError:
+        return None
+    m = re.search(r"def %s : List String := \[(.*?)\]\n" % name, txt, re.S)
+    return re.findall(r'"([^"]*)"', m.group(1)) if m else None
+
+
+def tree_push_atomic():
+    """F48: pushInFlightMessage inserts into the map and pushes the heap entry in one critical section
+    (Tie.Life.push_shape_known / treePushAtomic)"""
+    return (gen_fact("pushInflightCalls") == ["Lock", "Unlock", "Push", "Unlock"] and
+            gen_fact("startInflightCalls") == ["pushInFlightMessage"] and
+            gen_fact("touchPushCalls") == ["popInFlightMessage", "removeFromInFlightPQ", "pushInFlightMessage"])
+
+
+def tree_ans_lock():
+    """fixes/F27: REQ and TOUCH hold c.RLock (Tie.Life.answers_channel_lock_shape / treeAnsLock)"""
+    pre = ["call:c.exitMutex.RLock", "defer:RUnlock", "call:c.RLock", "defer:RUnlock", "call:c.popInFlightMessage"]
+    return (gen_fact("reqLockSeq") or [])[:5] == pre and (gen_fact("touchLockSeq") or [])[:5] == pre
+
+
 def fix_commit(ctx, key):
     for f in ctx.known_findings().get("fixed", []):
         if f.get("property") == ctx.prop and f.get("key") == key:
@@ -475,11 +499,15 @@ def life_property_fails(last, op, impl, model):
     return None
 
 
-def micro_corr(ctx, binp, corr_broken, seed, n, steps, fixed, scan_atomic=False):
+def micro_corr(ctx, binp, corr_broken, seed, n, steps, fixed, scan_atomic=False, push_atomic=None, ans_lock=None):
+    push_atomic = tree_push_atomic() if push_atomic is None else push_atomic
+    ans_lock = tree_ans_lock() if ans_lock is None else ans_lock
     rc, out = ctx.run_cmd([binp, "-test.run", "^TestVerifE5MicroCorr$", "-test.count=1", "-test.timeout", "%ds" % deadline(ctx)],
                           timeout=deadline(ctx) + 30, env={"VERIF_SEED": seed, "VERIF_N": n, "VERIF_STEPS": steps,
                                             "VERIF_OUT": ctx.work, "VERIF_FIXED": 1 if fixed else 0,
-                                            "VERIF_SCANATOMIC": 1 if scan_atomic else 0})
+                                            "VERIF_SCANATOMIC": 1 if scan_atomic else 0,
+                                            "VERIF_PUSHATOMIC": 1 if push_atomic else 0,
+                                            "VERIF_ANSLOCK": 1 if ans_lock else 0})
     if rc != 0 and hung(ctx, rc, out, "TestVerifE5MicroCorr", seed, n, steps):
         corr_broken.append("micro harness hit its deadline")
         return
@@ -632,6 +660,13 @@ def run(ctx):
     ctx.notes.append("processInFlightQueue on this tree: %s → model parameter scanAtomic=%s"
                      % ("heap pop + map delete in one critical section" if scan_atomic else
                         "heap pop, then popInFlightMessage (two critical sections)", scan_atomic))
+    ctx.corr["tree_push_atomic_F48"] = tree_push_atomic()
+    ctx.corr["tree_answers_hold_channel_lock_F27"] = tree_ans_lock()
+    ctx.notes.append("micro-step model parameters of this tree: pushAtomic=%s (F48: map insert + heap push one critical "
+                     "section), ansLock=%s (fixes/F27: REQ/TOUCH hold c.RLock; %s)"
+                     % (tree_push_atomic(), tree_ans_lock(),
+                        "empty_discards_held_fixed in force" if tree_ans_lock() else
+                        "finding empty-races-req-message-survives open"))
     ctx.notes.append("removeFromInFlightPQ on this tree: %s → micro-step model parameter fixed=%s; theorem in force: %s"
                      % ("patched guard" if fixed else "`if msg.index == -1`", fixed,
                         "no_fault (all schedules)" if fixed else "no_fault_full_false + known finding F7"))
